@@ -12,7 +12,7 @@ functions of Model/SecMem.lean).
 
 Clauses (C12): create_fail_is_error, create_ok_is_protected, create_fail_leaves_no_secret,
 access_fail_neutral, error_without_fault (later reads and Close work; Close can be retried),
-wipe_before_release, inuse_balanced, use_after_free.
+wipe_before_release, inuse_balanced, use_after_free, no_crash.
 Clauses (C11): inside_readonly, reader_sees_original, idle_noaccess, closed_unmapped,
 access_after_close_is_error, close_idempotent (via error_without_fault), isclosed_flag.
 -/
@@ -118,7 +118,8 @@ def closeClauses (v : View) (ms : MonSec) : List String :=
 def commonClauses (v : View) (live : Int) : List String :=
   (if releasesClean v.evs then [] else ["wipe_before_release"]) ++
   (if v.inuse == live then [] else ["inuse_balanced"]) ++
-  (if v.stray then ["use_after_free"] else [])
+  (if v.stray then ["use_after_free"] else []) ++
+  (if v.res == .crash then ["no_crash:SIGSEGV"] else [])
 
 def Mon.step (m : Mon) (shadow : Bool) (op : Op) (v : View) : Mon × List String :=
   match op with
